@@ -288,7 +288,9 @@ def c10(ctx, rep):
             # C10 speaks about default run-time options: a pair in which either parser ran into the
             # MaxExpressions budget (or the watchdog) is outside it - the two templates count differently
             hit = lambda o: o.get("out") in corr.NONTERM or MAXEXPR_MSG.encode().hex() in (o.get("errs") or "")
-            if hit(a) or hit(b):
+            if hit(a) or hit(b) or corr.case_opts(l)["memo"]:
+                # (Memoize is not a default option either: the optimized template ignores it, and on
+                # left-recursive grammars it changes the error list, known finding C08-MEMO-DISCARDED-ERRS)
                 skipped += 1
                 continue
             pairs += 1
@@ -296,7 +298,7 @@ def c10(ctx, rep):
                 rep.violation("-optimize-parser changes the result (value / error list)",
                               {"case": rep.case_lines.get(base), "standard": a, "optimized": b}, found=True)
     rep.cov["optimize_pairs_compared"] = pairs
-    rep.cov["optimize_pairs_outside_default_options (budget hit)"] = skipped
+    rep.cov["optimize_pairs_outside_default_options (budget hit or Memoize)"] = skipped
 
 # ------------------------------------------------------------------ C08 (left-recursive rules)
 def c08_skip(line, impl, ref):
